@@ -115,6 +115,12 @@ func deepAssign(dst, src reflect.Value) {
 				dst.Set(arr.Slice3(0, n, c))
 			}
 		}
+	case reflect.Interface:
+		if src.IsNil() {
+			dst.Set(reflect.Zero(src.Type()))
+		} else {
+			dst.Set(Readable(src.Elem()))
+		}
 	case reflect.Map:
 		if src.IsNil() {
 			dst.Set(reflect.Zero(src.Type()))
@@ -218,6 +224,17 @@ func eq(a, b reflect.Value, o EqOpt, root bool) bool {
 			}
 		}
 		return true
+	case reflect.Interface:
+		if a.IsNil() || b.IsNil() {
+			return a.IsNil() && b.IsNil()
+		}
+		if a.Elem().Type() != b.Elem().Type() {
+			return false
+		}
+		if a.Elem().Kind() == reflect.Ptr {
+			return a.Elem().Pointer() == b.Elem().Pointer() // interface values are compared by identity
+		}
+		return eq(a.Elem(), b.Elem(), o, false)
 	}
 	panic("vref: Eq unsupported kind " + a.Kind().String())
 }
